@@ -6,6 +6,7 @@
 package c01
 
 import (
+	"encoding/json"
 	"context"
 	"fmt"
 	"sort"
@@ -50,6 +51,14 @@ var wantB = true
 // derived from the XR's spec.param (so it changes when that field is edited).
 var nameA = false
 
+// annotateA makes the rendered resource a arrive with a
+// crossplane.io/composition-resource-name annotation naming something else
+// (a manifest copied from another composition, a nested XR whose parent
+// annotated it): the composer must still associate it with "a".
+var annotateA = false
+
+const foreignResourceName = "legacy-a"
+
 // fn is the scripted composition function: desired = {a: ResA, b: ResB}
 // (b only while wantB).
 func fn(_ context.Context, _ string, req *fnv1.RunFunctionRequest) (*fnv1.RunFunctionResponse, error) {
@@ -67,6 +76,14 @@ func fn(_ context.Context, _ string, req *fnv1.RunFunctionRequest) (*fnv1.RunFun
 				m := map[string]*fnv1.Resource{"a": desiredResource(xrh.ResA, param)}
 				if nameA {
 					m["a"].Resource.Fields["metadata"] = structpb.NewStructValue(&structpb.Struct{Fields: map[string]*structpb.Value{"name": structpb.NewStringValue("explicit-" + param)}})
+				}
+				if annotateA {
+					md := m["a"].Resource.Fields["metadata"].GetStructValue()
+					if md == nil {
+						md = &structpb.Struct{Fields: map[string]*structpb.Value{}}
+						m["a"].Resource.Fields["metadata"] = structpb.NewStructValue(md)
+					}
+					md.Fields["annotations"] = structpb.NewStructValue(&structpb.Struct{Fields: map[string]*structpb.Value{"crossplane.io/composition-resource-name": structpb.NewStringValue(foreignResourceName)}})
 				}
 				if wantB {
 					m["b"] = desiredResource(xrh.ResB, param)
@@ -113,13 +130,30 @@ func ptTemplates() []xrh.Template {
 	from := "spec.param"
 	req := v1.FromFieldPathPolicyRequired
 	pol := &v1.PatchPolicy{FromFieldPath: &req}
+	var extraA func(ct *v1.ComposedTemplate)
+	if annotateA {
+		extraA = func(ct *v1.ComposedTemplate) {
+			base := map[string]any{}
+			if err := json.Unmarshal(ct.Base.Raw, &base); err != nil {
+				panic(err)
+			}
+			md, _ := base["metadata"].(map[string]any)
+			if md == nil {
+				md = map[string]any{}
+			}
+			md["annotations"] = map[string]any{"crossplane.io/composition-resource-name": foreignResourceName}
+			base["metadata"] = md
+			ct.Base.Raw, _ = json.Marshal(base)
+		}
+	}
 	return []xrh.Template{
-		{Name: "a", GVK: xrh.ResA, Patches: []v1.Patch{{Type: v1.PatchTypeFromCompositeFieldPath, FromFieldPath: &from, ToFieldPath: &from, Policy: pol}}},
+		{Name: "a", GVK: xrh.ResA, Extra: extraA, Patches: []v1.Patch{{Type: v1.PatchTypeFromCompositeFieldPath, FromFieldPath: &from, ToFieldPath: &from, Policy: pol}}},
 		{Name: "b", GVK: xrh.ResB, Patches: []v1.Patch{{Type: v1.PatchTypeFromCompositeFieldPath, FromFieldPath: &from, ToFieldPath: &from, Policy: pol}}},
 	}
 }
 
 func setup(r *explore.Run, sc scenario) *world {
+	annotateA = strings.HasSuffix(sc.composer, "-annotated")
 	xrh.BeginExecution(7)
 	xrh.MapOrder(sc.order)
 	s := xrh.NewStore()
@@ -182,6 +216,12 @@ func TestCheck(t *testing.T) {
 			scs = append(scs, scenario{composer: c, initial: in, order: 0, window: 2, bound: 1, reads: false, cache: "miss"})
 		}
 	}
+	// The rendered resource arrives annotated with another resource name.
+	for _, c := range []string{"pipeline-annotated", "pt-annotated"} {
+		for _, in := range []string{"fresh", "steady"} {
+			scs = append(scs, scenario{composer: c, initial: in, order: 0, window: 2, bound: 1, reads: false})
+		}
+	}
 	// P&T: a template disappears from the Composition.
 	scs = append(scs,
 		scenario{composer: "pt", initial: "b-template-removed", order: 0, window: 2, bound: 2, reads: false},
@@ -239,7 +279,9 @@ func body(r *explore.Run, sc scenario, rep *report.R) {
 	// --- preparation (fault free, not explored) ---
 	if sc.initial != "fresh" && m.prepared == nil {
 		if !toQuiescence(w, rec, nn, nil) {
-			panic(explore.HarnessError{Msg: "preparation did not quiesce"})
+			// Fault-free reconciles from a fresh XR that never stop writing:
+			// "reconciling again changes nothing" does not hold.
+			r.Failf("I3/no-quiescence/"+sc.composer+"/fault-free", "a fresh XR did not reach a state in which reconciling changes nothing within %d fault-free reconciles; last writes: %s", horizon, xrh.DescribeWrites(s, len(s.Log)-6))
 		}
 		w.observeNames()
 		switch sc.initial {
